@@ -14,7 +14,7 @@ import math
 import struct
 import time
 
-from .. import runner
+from .. import runner, sanit
 from ..common import jnum, outcome, strict_json, bits, panic_sig
 
 PROP = "C09"
@@ -350,6 +350,16 @@ def run(tier, seed, t0):
     acc = runner.Acc()
     for a in accs:
         acc.merge(a)
+    # number ordering goes through an unchecked unwrap of partial_cmp (sound only because NaN is never constructed):
+    # sorts, sets and comparisons over the boundary set under the memory monitors
+    B = [jnum(x) for x in boundary_set()]
+    directed = ["std.sort([%s])" % ", ".join(B), "std.set([%s])" % ", ".join(B + B[::-1]), "std.sort([%s], function(x) -x)" % ", ".join(B[:30]),
+                "std.minArray([%s]) + std.maxArray([%s])" % (", ".join(B[:20]), ", ".join(B[20:40])),
+                "[[%s] < [%s], [%s] <= [%s]]" % (", ".join(B[:8]), ", ".join(B[:7] + B[9:10]), ", ".join(B[10:14]), ", ".join(B[10:14])),
+                "std.uniq(std.sort([%s]))" % ", ".join(B[::3] + B[::3]), "std.setMember(%s, std.set([%s]))" % (B[5], ", ".join(B[:12])),
+                "[x < y for x in [%s] for y in [%s]]" % (", ".join(B[:10]), ", ".join(B[-10:]))]
+    sanit.run_pass(acc, PROP, tier, seed, extra_items=[sanit.item(c) for c in directed],
+                   quick={"asan": 80, "miri": 8}, thorough={"asan": 1600, "memcheck": 320, "miri": 160})
     return runner.finish(
         PROP, tier, seed, "exploration", acc, t0,
         rule="exhaustive over a %d-element boundary set of doubles: all ordered pairs x %d binary "
